@@ -428,6 +428,23 @@ Theorem C03_atomic_restores_never_deployed_refuted :
 Proof. exact atomic_restores_never_deployed_refuted. Qed.
 Print Assumptions C03_atomic_restores_never_deployed_refuted.
 
+(* Known finding K12 — why C03_atomic_upgrade_hooks admits a history limit only when g is the
+   DEPLOYED revision: on the ledger without a deployed revision above (1:superseded 2:superseded
+   3:failed), upgrade --atomic --history-max 2 whose wait fails: the upgrade's own Storage.Create
+   prunes revisions 1 and 2 (pruning spares only a deployed revision), nothing is left to roll
+   back to, no new deployed revision, a = v4 stays in the cluster *)
+Theorem C03_atomic_target_pruned_refuted :
+  exists h w,
+    final h = Some (w, OErr EOtherErr) /\
+    trail h =
+      [ [(1, SDeployed)];
+        [(1, SSuperseded); (2, SDeployed)];
+        [(1, SSuperseded); (2, SSuperseded); (3, SFailed)];
+        [(3, SFailed); (4, SFailed)] ] /\
+    data_of "ConfigMap/a" w = Some "v4".
+Proof. exact atomic_target_pruned_refuted. Qed.
+Print Assumptions C03_atomic_target_pruned_refuted.
+
 (* ================= round 4: the open clauses of the atomic upgrade ================= *)
 
 (* C03_atomic_upgrade_hooks — C03_atomic_upgrade with hooks ENABLED, with the second disjunct of
